@@ -521,6 +521,10 @@ fn run_case(case: &Case) -> Result<Outcome, Failure> {
     }
     if case.recv_inside_deserialize {
         sandwich_check(case.followups as usize + 1, case.script.len() % 3 + 1)?;
+        #[cfg(not(feature = "inproc"))]
+        if case.followups % 2 == 1 {
+            sandwich_with_bogus_inner(case.script.len() % 3 + 1)?;
+        }
     }
     let nontrivial = (sim.failures > 0 && sim.visited_before_failure > 0) || sim.nested_with_attachments_both_levels;
     let class = format!(
@@ -531,6 +535,71 @@ fn run_case(case: &Case) -> Result<Outcome, Failure> {
         if case.target_closed { "+os-rejection" } else { "" }
     );
     Ok(Outcome::new(nontrivial, class).with("nested_sends", sim.nested as u64).with("failed_sends", sim.failures as u64))
+}
+
+/// The same, but the message received inside the deserialisation is not a valid value of its
+/// type: it carries no attachments and its bytes *refer* to attachment number 0.  That receive must
+/// report an error - not help itself to attachment 0 of the message being decoded around it - and
+/// the outer message must still arrive with exactly its own attachments.
+#[cfg(not(feature = "inproc"))]
+fn sandwich_with_bogus_inner(n_outer: usize) -> Result<(), Failure> {
+    use crate::props::c16::Raw;
+    let chan = || ipc::channel::<Node>().map_err(|e| Failure::inconclusive(format!("channel: {}", e)));
+    let (ts, rs) = ipc::channel::<Sandwich>().map_err(|e| Failure::inconclusive(format!("channel: {}", e)))?;
+    let (ti, ri) = ipc::channel::<ipc::IpcSender<Node>>().map_err(|e| Failure::inconclusive(format!("channel: {}", e)))?;
+    let mut probes: Vec<IpcReceiver<Node>> = vec![];
+    let mut mk = |n: usize| -> Result<Node, Failure> {
+        let mut v = vec![];
+        for _ in 0..n {
+            let (t, r) = chan()?;
+            probes.push(r);
+            v.push(Node::Tx(t));
+        }
+        Ok(Node::List(v))
+    };
+    let a = mk(n_outer)?;
+    let b = mk(n_outer)?;
+    // an `IpcSender` is encoded as the index of its attachment: nothing is attached, and the index
+    // is that of the first attachment the outer message has not handed out yet when the hook runs
+    let raw_ti: ipc::IpcSender<Raw> = ti.to_opaque().to();
+    raw_ti.send(Raw { bytes: (n_outer as u64).to_le_bytes().to_vec(), atts: vec![] }).map_err(|e| Failure::new("deser-recv:send-failed", e.to_string()))?;
+    ts.send(Sandwich(a, HookPoint, b)).map_err(|e| Failure::new("deser-recv:send-failed", e.to_string()))?;
+    let inner_got: std::rc::Rc<RefCell<Option<bool>>> = Default::default();
+    let ig = inner_got.clone();
+    DESER_HOOK.with(|h| {
+        *h.borrow_mut() = Some(Box::new(move || {
+            *ig.borrow_mut() = Some(ri.try_recv().is_ok());
+        }))
+    });
+    let got = std::panic::catch_unwind(std::panic::AssertUnwindSafe(|| rs.try_recv()));
+    DESER_HOOK.with(|h| *h.borrow_mut() = None);
+    match inner_got.borrow_mut().take() {
+        Some(false) => {},
+        Some(true) => fail!("deser-recv:bogus-inner-decoded", "a message without attachments whose bytes refer to an attachment number, received inside the deserialisation of another message, decoded to an endpoint (taken from the enclosing message)"),
+        None => fail!("deser-recv:hook-not-run", "the deserialisation hook did not run"),
+    }
+    let Sandwich(ga, _, gb) = match got {
+        Ok(Ok(v)) => v,
+        Ok(Err(e)) => fail!("deser-recv:outer-lost", "outer message did not decode after an undecodable message was received inside its deserialisation: {:?}", e),
+        Err(_) => fail!("deser-recv:panicked", "decoding the outer message panicked after a receive inside its deserialisation"),
+    };
+    let mut hs = vec![];
+    node::take_handles(ga, &mut hs);
+    node::take_handles(gb, &mut hs);
+    ensure!(hs.len() == probes.len(), "deser-recv:attachment-missing", "{} senders attached to the outer message, {} arrived", probes.len(), hs.len());
+    for (pi, h) in hs.into_iter().enumerate() {
+        match h {
+            Handle::Tx(t) => {
+                t.send(Node::U64(pi as u64)).map_err(|e| Failure::new("deser-recv:probe-failed", e.to_string()))?;
+                match probes[pi].try_recv() {
+                    Ok(Node::U64(x)) if x == pi as u64 => {},
+                    other => fail!("deser-recv:attachment-misassigned", "sender number {} of the outer message is not the one that was attached there ({:?})", pi, other.map(|v| node::rendered(&v))),
+                }
+            },
+            _ => fail!("deser-recv:attachment-kind", "unexpected attachment kind"),
+        }
+    }
+    Ok(())
 }
 
 /// A receive issued from inside a deserialisation: the outer value is `(a, hook, b)`; decoding the
